@@ -449,8 +449,17 @@ def check_catalog_sym(cid, acc=None, bindings=(1, 2, 3, 5, 7)):
 
 
 def _work_catalog(sh, acc):
-    for cid in sh["ids"]:
+    import time
+
+    t0 = time.monotonic()
+    for k, cid in enumerate(sh["ids"]):
+        if time.monotonic() - t0 > sh.get("budget_s", 1e9):
+            acc.inconclusive += len(sh["ids"]) - k
+            acc.tally("catalog_status", "not_reached_within_budget", len(sh["ids"]) - k)
+            break
+        t1 = time.monotonic()
         vs = check_catalog_sym(cid, acc)
+        acc.timed(cid, time.monotonic() - t1)
         if not vs and len(acc.samples) < 1:
             acc.samples.append({"catalog_id": cid, "bindings": [1, 2, 3, 5, 7]})
         for v in vs:
@@ -483,7 +492,7 @@ def plan(tier, seed):
         rng = np.random.default_rng(seed)
         ids = [ids[i] for i in sorted(rng.choice(len(ids), size=min(128, len(ids)), replace=False).tolist())]
     k = 16 if tier == "quick" else 32
-    shards += [{"kind": "catalog", "ids": ids[i::k]} for i in range(k)]
+    shards += [{"kind": "catalog", "ids": ids[i::k], "budget_s": 90 if tier == "quick" else 500} for i in range(k)]
     return shards
 
 
